@@ -266,13 +266,25 @@ def evidence_row(seed, dim, i):
 
 
 class IdMap:
+    """rows handed to update -> ids; rows of X / Y -> ids (-1 = a row that was never handed in).  Equal rows (an
+    acquisition rule may return the same corner of the bounds twice) are told apart by order of appearance."""
+
     def __init__(self):
         self.x = {}
         self.y = {}
 
     def add(self, i, x, y):
-        self.x[tuple(float(v) for v in x)] = i
-        self.y[float(y)] = i
+        self.x.setdefault(tuple(float(v) for v in x), []).append(i)
+        self.y.setdefault(float(y), []).append(i)
+
+    @staticmethod
+    def _assign(table, keys):
+        used, out = set(), []
+        for k in keys:
+            i = next((c for c in table.get(k, ()) if c not in used), -1)
+            used.add(i)
+            out.append(i)
+        return out
 
     def ids(self, model):
         gp = getattr(model, "_gp", None)
@@ -280,8 +292,8 @@ class IdMap:
             return [], []
         X = np.asarray(model.X)
         Y = np.asarray(model.Y)
-        xi = [self.x.get(tuple(float(v) for v in r), -1) for r in X.reshape((len(X), -1))]
-        yi = [self.y.get(float(v), -1) for v in Y.reshape(-1)] if Y.ndim <= 2 and Y.size == len(Y) else [-1] * len(Y)
+        xi = self._assign(self.x, [tuple(float(v) for v in r) for r in X.reshape((len(X), -1))])
+        yi = self._assign(self.y, [float(v) for v in Y.reshape(-1)]) if Y.size == len(Y) else [-1] * len(Y)
         return xi, yi
 
 
@@ -676,7 +688,7 @@ def design_level(ctx):
                 cfg_text=post_cfg("{1}", 0, 1, "{1, 2}", "MCLpValsSmall", "MCPriorSlopesOne", variant, [inv]))
     sacts = ["Update", "Optimize", "SetSampling", "Answer"]
     sinv = ["TypeOK", "FastPathFresh", "AnswersCurrent", "EvidenceIsIdsInOrder"]
-    maxchg, maxlen, maxev = (3, 6, 4) if ctx.quick else (4, 8, 5)
+    maxchg, maxlen, maxev = (3, 6, 4) if ctx.quick else (4, 7, 5)
     ctx.tlc("Surrogate", "Surrogate_main", expect_actions=sacts, workers=8, timeout=1500,
             cfg_text=sur_cfg(True, "append", maxchg, maxlen, maxev, sinv, props=["AppendOnly"]))
     # the code as found (update/optimize leave _rbf_is_cached alone): FastPathFresh must be refuted (F10)
